@@ -926,6 +926,255 @@ def c12_hostname_timeout_timer(ctx):
     return q.result()
 
 
+def c12_response_record_timers(ctx):
+    q = Q("c12_response_record_timers",
+          ["Zeroconf::handle_response (window: one received record, from the return of DnsCache::add_or_update to the next record; window: the drain of the collected timers into Zeroconf::add_timer)"],
+          "one pass of the record loop from an arbitrary state, for every verdict of add_or_update (None / Some(_, true) / Some(_, false)); one pass of the drain loop for an arbitrary collected instant",
+          ["window slices", "add_or_update, get_expire_time, get_refresh_time and the listener calls are opaque", "which calls happen on which path is decided, not what the callees do"])
+    f = ctx.funcs[ctx.fn("::handle_response")]
+    tl = f.debug.get("timers")
+    blk = _block_after_call(f, r"DnsCache::add_or_update$")
+    if blk is None or not tl or not re.fullmatch(r"_\d+", tl):
+        q.unknown.append("anchor not found: call of DnsCache::add_or_update / local `timers` in handle_response")
+        return q.result()
+    start, dest, _ = blk
+    ex = Explorer(ctx.funcs, ctx.consts, stop_calls=("as Iterator>::next",), max_paths=1500)
+    paths = ex.explore(f.name, start_block=start)
+    if ex.cut_paths:
+        q.unknown.append("path budget exhausted in the record loop of handle_response")
+    n_some = n_none = 0
+    for i, p in enumerate(paths):
+        if not (p.outcome.startswith("stop:") or p.outcome == "return"):
+            continue
+        d = [e for e in p.events if e[0] == "discr" and e[2] == dest]
+        if not d:
+            q.unknown.append(f"path {i}: the verdict of add_or_update is never examined")
+            continue
+        dv = d[0][3]
+        may_some, may_none = ex.feasible(p.cond + [dv.e != 0]), ex.feasible(p.cond + [dv.e == 0])
+        rets = {}
+        for e in p.events:
+            if e[0] == "ret" and e[1].split("::")[-1] in ("get_expire_time", "get_refresh_time"):
+                rets.setdefault(e[1].split("::")[-1], []).append(e[2])
+        pushes = [e[2][1] for e in p.events if e[0] == "call" and e[1].endswith("Vec::<u64>::push") and isinstance(e[2][0], Ref)
+                  and isinstance(e[2][0].obj, tuple) and e[2][0].obj[0] == "local" and e[2][0].obj[2] == tl]
+        if may_some and not may_none:
+            n_some += 1
+            for what, label in (("get_expire_time", "expiry"), ("get_refresh_time", "next refresh")):
+                vals = rets.get(what, [])
+                hit = [v for v in vals for x in pushes if isinstance(v, BV) and isinstance(x, BV) and v.e.eq(x.e)]
+                if not hit:
+                    q.fail.append((f"a record was stored or updated in the cache but no wake-up is collected for its {label}",
+                                   f"path {i}: {len(vals)} {what} calls, {len(pushes)} pushes to `timers`"))
+            q.witness(p.cond, f"classify: path {i} stores a record")
+        elif may_none and not may_some:
+            n_none += 1
+        else:
+            q.unknown.append(f"path {i}: not classified by the verdict of add_or_update")
+    if n_some < 2 or n_none < 1:
+        q.unknown.append(f"expected paths for new, updated and ignored records (found {n_some} storing, {n_none} ignoring)")
+    # ---- the drain: every collected instant reaches add_timer ----
+    drain = None
+    for b in sorted(f.blocks, key=lambda x: int(x[2:])):
+        stmts, term = f.blocks[b]
+        m = re.match(r"(_\d+) = <Vec<u64> as IntoIterator>::into_iter\(move (_\d+)\)", term)
+        if m and any(re.fullmatch(r"%s = move %s;" % (m.group(2), tl), x) for x in stmts):
+            drain = b
+            break
+    nb = _block_after_call(f, r"<std::vec::IntoIter<u64> as Iterator>::next$")
+    if drain is None or nb is None:
+        q.unknown.append("anchor not found: `for t in timers` (Vec<u64>::into_iter of the local `timers` and IntoIter<u64>::next)")
+        return q.result()
+    nstart, ndest, _ = nb
+    item, found = z3.BitVec("collected_timer", 64), z3.BitVec("next_is_some", 64)
+    ex2 = Explorer(ctx.funcs, ctx.consts, stop_calls=("Zeroconf::add_timer",), max_paths=100)
+    paths2 = ex2.explore(f.name, start_block=nstart, locals_={ndest: Adt("Option::Some?", [BV(item, 64)], discr=found)},
+                         assumptions=[z3.ULE(found, z3.BitVecVal(1, 64))])
+    armed = 0
+    for i, p in enumerate(paths2):
+        if p.outcome.startswith("stop:"):
+            arg = [e for e in p.events if e[0] == "call" and e[1].endswith("Zeroconf::add_timer")][-1][2][1]
+            if not isinstance(arg, BV):
+                q.unknown.append(f"drain path {i}: add_timer operand not resolved")
+                continue
+            armed += 1
+            q.valid(p.cond, z3.And(found == 1, arg.e == item), f"drain path {i}: add_timer gets the collected instant", arg.taint)
+            q.witness(p.cond, f"drain path {i}")
+        else:
+            q.valid(p.cond, found == 0, f"drain path {i}: a collected instant is dropped without add_timer ({p.outcome[:30]})")
+    if armed == 0:
+        q.unknown.append("no path of the drain loop reaches add_timer")
+    return q.result()
+
+
+def _drains_into_add_timer(ctx, f, local, q, tag):
+    """`for t in <local>` feeding every item to Zeroconf::add_timer (one pass of the loop, arbitrary item)"""
+    drain = None
+    for b in sorted(f.blocks, key=lambda x: int(x[2:])):
+        stmts, term = f.blocks[b]
+        m = re.match(r"(_\d+) = <Vec<u64> as IntoIterator>::into_iter\(move (_\d+)\)", term)
+        if m and (m.group(2) == local or any(re.fullmatch(r"%s = move %s;" % (m.group(2), local), x) for x in stmts)):
+            drain = b
+            break
+    nb = _block_after_call(f, r"<std::vec::IntoIter<u64> as Iterator>::next$")
+    if drain is None or nb is None:
+        q.unknown.append(f"{tag}: anchor not found: `for t in timers` (Vec<u64>::into_iter of the collecting local and IntoIter<u64>::next)")
+        return
+    nstart, ndest, _ = nb
+    item, found = z3.BitVec("collected_timer", 64), z3.BitVec("next_is_some", 64)
+    ex2 = Explorer(ctx.funcs, ctx.consts, stop_calls=("Zeroconf::add_timer",), max_paths=100)
+    paths2 = ex2.explore(f.name, start_block=nstart, locals_={ndest: Adt("Option::Some?", [BV(item, 64)], discr=found)},
+                         assumptions=[z3.ULE(found, z3.BitVecVal(1, 64))])
+    armed = 0
+    for i, p in enumerate(paths2):
+        if p.outcome.startswith("stop:"):
+            arg = [e for e in p.events if e[0] == "call" and e[1].endswith("Zeroconf::add_timer")][-1][2][1]
+            if not isinstance(arg, BV):
+                q.unknown.append(f"{tag}: drain path {i}: add_timer operand not resolved")
+                continue
+            armed += 1
+            q.valid(p.cond, z3.And(found == 1, arg.e == item), f"{tag}: drain path {i}: add_timer gets the collected instant", arg.taint)
+            q.witness(p.cond, f"{tag}: drain path {i}")
+        else:
+            q.valid(p.cond, found == 0, f"{tag}: drain path {i}: a collected instant is dropped without add_timer ({p.outcome[:30]})")
+    if armed == 0:
+        q.unknown.append(f"{tag}: no path of the drain loop reaches add_timer")
+
+
+def c12_rerun_has_timer(ctx):
+    q = Q("c12_rerun_has_timer", ["every function that pushes a ReRun onto Zeroconf::retransmissions (window: from the push to the end of the function or of the loop pass)"],
+          "every site `retransmissions.push(ReRun { next_time, .. })` in the crate; next_time: any u64; every path from the push to the return / loop back-edge",
+          ["window slices", "calls other than the timer pushes are opaque"])
+    sites = []
+    for name, f in ctx.funcs.items():
+        for b, (stmts, term) in f.blocks.items():
+            m = re.match(r"(?:_\d+) = Vec::<(?:service_daemon::)?ReRun>::push\(move (_\d+), move (_\d+)\) -> \[return: (bb\d+)", term)
+            if m:
+                sites.append((name, b, m.group(2), m.group(3)))
+    if len(sites) < 3:
+        q.unknown.append(f"expected at least 3 sites pushing a ReRun (add_retransmission, the re-announcement, the goodbye repeat); found {len(sites)}")
+    drained = set()
+    for name, b, rr, rb in sorted(sites):
+        f = ctx.funcs[name]
+        tag = name.split("::")[-1] + ":" + b
+        agg = [re.fullmatch(r"%s = (?:service_daemon::)?ReRun \{ next_time: (?:copy|move) (_\d+), command: .* \};" % rr, x) for x in f.blocks[b][0]]
+        agg = [a for a in agg if a]
+        if len(agg) != 1:
+            q.unknown.append(f"{tag}: the ReRun value is not built next to the push")
+            continue
+        ntl = agg[0].group(1)
+        nt = z3.BitVec("rerun_next_time", 64)
+        ex = Explorer(ctx.funcs, ctx.consts, max_paths=400)
+        paths = ex.explore(f.name, start_block=rb, locals_={ntl: BV(nt, 64)})
+        if ex.cut_paths:
+            q.unknown.append(f"{tag}: path budget exhausted")
+        seen = 0
+        for i, p in enumerate(paths):
+            if not (p.outcome == "return" or p.outcome.startswith("cut:loop")):
+                continue
+            seen += 1
+            got = []
+            for e in p.events:
+                if e[0] != "call":
+                    continue
+                if e[1].endswith("Zeroconf::add_timer") and len(e[2]) == 2:
+                    got.append(e[2][1])
+                elif "BinaryHeap" in e[1] and e[1].endswith("::push") and len(e[2]) == 2:
+                    a = e[2][1]
+                    got.append(a.items[0] if isinstance(a, (Adt, Tup)) and a.items else a)
+                elif e[1].endswith("Vec::<u64>::push") and len(e[2]) == 2 and isinstance(e[2][0], Ref) and isinstance(e[2][0].obj, tuple) and e[2][0].obj[0] == "local":
+                    got.append(e[2][1])
+                    drained.add((name, e[2][0].obj[2]))
+            got = [g for g in got if isinstance(g, BV)]
+            if not got:
+                q.fail.append(("a re-run is queued but no wake-up is requested for its time", f"{tag}: path {i} ({p.outcome[:20]})"))
+                continue
+            clean = [g for g in got if not g.taint]   # e.g. not the items a later drain loop hands to add_timer
+            q.valid(p.cond, z3.Or(*[g.e == nt for g in clean]) if clean else z3.BoolVal(False),
+                    f"{tag}: path {i}: the wake-up requested is the re-run's next_time", not clean)
+            if seen == 1:
+                q.witness(p.cond, f"{tag}: path {i}")
+        if seen == 0:
+            q.unknown.append(f"{tag}: no path from the push to the end of the function / loop pass")
+    for name, local in sorted(drained):
+        _drains_into_add_timer(ctx, ctx.funcs[name], local, q, name.split("::")[-1])
+    return q.result()
+
+
+def c12_probe_timers(ctx):
+    q = Q("c12_probe_timers", ["DnsRegistry::is_probing_done (every path)", "every `for timer in dns_registry.new_timers.drain(..)` loop of the daemon (window: one pass)"],
+          "every path of is_probing_done with opaque record comparisons; one pass of each drain loop for an arbitrary drained instant",
+          ["window slices", "record comparison, map look-ups and the probe's record list are opaque"])
+    # (a) a record that still has to be probed leaves the probe's next send time in new_timers
+    cands = [n for n in ctx.funcs if n.endswith("::is_probing_done") and "{closure" not in n]
+    if len(cands) != 1:
+        q.unknown.append(f"is_probing_done: {len(cands)} candidates")
+    else:
+        f = ctx.funcs[cands[0]]
+        ex = Explorer(ctx.funcs, ctx.consts, max_paths=600)
+        paths = ex.explore(f.name)
+        if ex.cut_paths:
+            q.unknown.append("is_probing_done: path budget exhausted")
+        n_false = n_true = 0
+        for i, p in enumerate(paths):
+            if p.outcome != "return" or not isinstance(p.ret, BoolV):
+                continue
+            can_false, can_true = ex.feasible(p.cond + [z3.Not(p.ret.e)]), ex.feasible(p.cond + [p.ret.e])
+            if can_true and not can_false:
+                n_true += 1
+                continue
+            if can_true and can_false:
+                q.unknown.append(f"is_probing_done path {i}: verdict not fixed by the path")
+                continue
+            n_false += 1
+            pushes = [e for e in p.events if e[0] == "call" and e[1].endswith("Vec::<u64>::push") and isinstance(e[2][0], Ref)
+                      and isinstance(e[2][0].obj, tuple) and e[2][0].obj[0] == "arg"]
+            if not pushes:
+                q.fail.append(("a record is (still) being probed but the probe's next send time is not left in new_timers", f"is_probing_done path {i}"))
+                continue
+            # the pushed value is read from the probe the map handed out (field next_send), not a fresh clock reading
+            val = pushes[0][2][1]
+            # (the executor names a field read `obj<object>.<field path>`; the object is the &mut Probe returned by or_insert_with)
+            if not (isinstance(val, BV) and re.match(r"obj[\w.]*or_insert_with_\d+\.\d+!", str(val.e))):
+                q.unknown.append(f"is_probing_done path {i}: pushed instant not traced to a field of the probe")
+            if n_false == 1:
+                q.witness(p.cond, f"classify: path {i} still probing")
+        if n_false < 2 or n_true < 1:
+            q.unknown.append(f"is_probing_done: expected paths for 'already active' and 'probing' (found {n_true}/{n_false})")
+    # (b) every drain of new_timers feeds the daemon's timer heap
+    sites = []
+    for name, f in ctx.funcs.items():
+        for b, (stmts, term) in f.blocks.items():
+            m = re.match(r"(_\d+) = <std::vec::Drain<'_, u64> as Iterator>::next\(.*\) -> \[return: (bb\d+)", term)
+            if m:
+                sites.append((name, m.group(1), m.group(2)))
+    if len(sites) < 2:
+        q.unknown.append(f"expected the two loops draining DnsRegistry::new_timers (add_interface, register_service); found {len(sites)}")
+    for name, ndest, nstart in sorted(sites):
+        tag = name.split("::")[-1]
+        item, found = z3.BitVec("drained_timer", 64), z3.BitVec("next_is_some", 64)
+        ex2 = Explorer(ctx.funcs, ctx.consts, stop_calls=("::push",), max_paths=100)
+        paths2 = ex2.explore(name, start_block=nstart, locals_={ndest: Adt("Option::Some?", [BV(item, 64)], discr=found)},
+                             assumptions=[z3.ULE(found, z3.BitVecVal(1, 64))])
+        armed = 0
+        for i, p in enumerate(paths2):
+            last = [e for e in p.events if e[0] == "call"]
+            if p.outcome.startswith("stop:") and last and "BinaryHeap" in last[-1][1]:
+                a = last[-1][2][1]
+                a = a.items[0] if isinstance(a, (Adt, Tup)) and a.items else a
+                if not isinstance(a, BV):
+                    q.unknown.append(f"{tag}: drain path {i}: heap operand not resolved")
+                    continue
+                armed += 1
+                q.valid(p.cond, z3.And(found == 1, a.e == item), f"{tag}: drain path {i}: the drained instant goes onto the timer heap", a.taint)
+                q.witness(p.cond, f"{tag}: drain path {i}")
+            else:
+                q.valid(p.cond, found == 0, f"{tag}: drain path {i}: a drained instant is dropped ({p.outcome[:30]})")
+        if armed == 0:
+            q.unknown.append(f"{tag}: no path of the drain loop reaches the timer heap")
+    return q.result()
+
+
 def c12_hostname_timeout_due(ctx):
     q = Q("c12_hostname_timeout_due", ["Zeroconf::run::{closure} (which hostname resolvers have timed out)"],
           "every deadline and every now (u64 x u64)", [])
@@ -1747,7 +1996,7 @@ SPECS = {
     "C05": [c05_reset_restores, c05_verify_deadline, c05_verify_shortens_only, c05_evict_predicate, c05_removed_addr_key],
     "C18": [c18_affected_host_lowercase],
     "C07": [c07_probe_clock, c07_reannounce_delay, c07_check_probing_paths],
-    "C12": [c12_poll_timeout, c12_ipcheck_rearm, c12_hostname_timeout_timer, c12_hostname_timeout_due, c12_conflict_probe_timer, c12_tiebreak_retry_timer, c11_cache_flush_rule, c05_verify_deadline, c07_check_probing_paths],
+    "C12": [c12_poll_timeout, c12_ipcheck_rearm, c12_hostname_timeout_timer, c12_hostname_timeout_due, c12_response_record_timers, c12_rerun_has_timer, c12_probe_timers, c12_conflict_probe_timer, c12_tiebreak_retry_timer, c11_cache_flush_rule, c05_verify_deadline, c07_check_probing_paths],
     "C19": [c19_browse_backoff, c19_hostname_backoff, c19_resolve_retry, c19_initial_delay, c19_rerun_due, c19_browse_listener_gone],
     "C08": [c08_tiebreak_count_operands, c08_rename_by_record_kind, c08_answer_uses_resolved_host],
     "C16": [c16_decode_txt_step, c16_first_key_wins],
